@@ -22,11 +22,11 @@ EXTRACT = ["C14"]
 BINS = ["c14"]
 NEEDS_CICADA = True
 ALLOWED_AXIOMS = []
-PINNED = ["C14_interp", "C14_parse_full", "C14_parse_partial", "C14_anchored", "C14_unbalanced_diagnosed",
+PINNED = ["C14_interp", "C14_parse_full", "C14_parse_partial", "C14_parse_partial_from", "C14_anchored", "C14_unbalanced_diagnosed",
           "C14_anchor_sound", "C14_full"]
 TRUSTED = [
     "Coq 8.16.1 kernel (coqc; coqchk in thorough); vm_compute in Example witnesses, in C14_unbalanced_refuted and in the "
-    "instances of C14_parse_partial",
+    "instances C14_parse_instances; C14_anchored and C14_unbalanced_examples compute on the regenerated grammar",
     "Base/Peg.v: pest semantics written from pest_generator-2.8.0/generator.rs and pest-2.8.0/parser_state.rs (implicit "
     "WHITESPACE, atomicity, EOI pair); pest's optimizer assumed semantics-preserving; tied by L1a",
     "tools/pest2coq.py (grammar.pest -> Gen/LocustGrammar.v), run on every check",
@@ -39,8 +39,10 @@ TRUSTED = [
 ]
 ASSUMES = [
     "C14_interp assumes set -e is not in effect (exit_on_error w = false for all w); set -e is C15's subject",
-    "the full parser-correctness statement C14_parse_full is proved only per instance (vm_compute) and for the per-rule "
-    "lemmas listed in notes/C14.md; the rest is carried by L1b on every run",
+    "the parser-correctness statement C14_parse_full is PROVED (unbounded, for all sufficiently large fuel) only for flat "
+    "scripts = any number of non-keyword command lines without indentation (C14_parse_partial, frag_flat); for scripts "
+    "with if / for / while blocks it is proved only on two computed instances (C14_parse_instances) and otherwise "
+    "carried by the correspondence layer L1b on every run",
     "while loops: the model bounds the iterations of one loop by n (OutOfFuel beyond); generated condition sequences end",
 ]
 
